@@ -10,6 +10,18 @@ CHECKS = {
          "Trusted: the reference decoder (from manual ch.1/ch.6); bodies beyond the bound and symbols outside the alphabet are not covered.",
          "DESIGN.md §4 C13"),
 }
+CHECKS.update({
+ "C01": ("exploration",
+         "bounded exhaustive enumeration (E1) of expression trees against a reference evaluator",
+         "Every binary expression tree up to the node bound over all operator spellings and a boundary-value leaf pool is executed by the real interpreter (two renderings each) and compared bit-exactly with a reference evaluator; traced families observe operand evaluation order and short-circuiting. Exhaustive below the bound.",
+         "Trusted: Go float64 arithmetic and the reference evaluator; depth above the bound and doubles outside the pool are not covered.",
+         "DESIGN.md §4 C01"),
+ "C02": ("exploration",
+         "bounded exhaustive enumeration (E1, rank/unrank) of statement trees against a reference interpreter",
+         "Every statement tree up to the node bound (nesting <= 3) over branches, both loop kinds, break/continue/输出 and expression statements runs as program body and as method body with a trace planted at every position; result and ordered trace must equal the reference interpreter's.",
+         "Trusted: the reference interpreter (manual ch.7/8). Trees above the bound are not covered.",
+         "DESIGN.md §4 C02"),
+})
 NOT_YET = {}
 props = [json.loads(l) for l in open(f"{V}/properties.jsonl")]
 checks = []
